@@ -65,31 +65,43 @@ Theorem C16_filter_is_on_base_name : forall unc dstr nm,
 Proof. exact chunk_file_id_base. Qed.
 Print Assumptions C16_filter_is_on_base_name.
 
-(* verify_exact (workers taken in feeding order).  Verify is the check: it reads with verification whatever
-   the store is configured to trust ([verifying st] = the store with SkipVerify off, since the fix of
-   verify/skip-verify-reports-nothing).  If Verify returns nil then, for ANY store options,
-   - every reported id's canonical own-format object fails NewChunkFromStorage,
-   - every canonical own-format chunk file whose object fails NewChunkFromStorage is reported,
+(* verify_exact.  Verify looks only at the store's own chunk files -- a file whose path is not exactly
+   nameFromID(id) for the id parsed from its name is skipped -- and reads them with verification whatever
+   the store is configured to trust ([verifying st]).  If it returns nil then, for ANY store options,
+   - the reported ids are exactly the ids of the canonical own-format chunk FILES whose object fails
+     NewChunkFromStorage (both directions),
    - without repair the tree is unchanged; with repair every path is as before or is the removed
-     canonical path of a reported id, and every reported id whose canonical path is a file is removed,
-   - every canonical own-format chunk file that is NOT reported holds an object whose data can be produced
-     and hashes to the id in its name -- for every id, the all-zero one included. *)
+     canonical path of a reported id, and every reported chunk file is removed,
+   - every canonical own-format chunk file that is not reported holds an object whose data can be produced
+     and hashes to the id in its name (the all-zero id included). *)
 Theorem C16_verify_exact : forall (H : bytes -> id) (zdecomp : bytes -> option bytes) (st : store)
   fuel bstr repair s0 s' msgs,
   is_dir (stat (st_base st) s0) = true ->
   verify H zdecomp fuel st bstr repair s0 = (s', msgs, None) ->
-  (forall i, In i (reported msgs) -> wf_id i /\ exists sum, get_chunk H zdecomp (verifying st) i s0 = GetInvalid sum) /\
+  (forall i, In i (reported msgs) ->
+     wf_id i /\ (exists sum, get_chunk H zdecomp (verifying st) i s0 = GetInvalid sum) /\
+     exists en, stat (snd (name_from_id st i)) s0 = Some en /\ is_dir (Some en) = false) /\
   (forall i en, wf_id i -> stat (snd (name_from_id st i)) s0 = Some en -> is_dir (Some en) = false ->
      (exists sum, get_chunk H zdecomp (verifying st) i s0 = GetInvalid sum) -> In i (reported msgs)) /\
   (repair = false -> s' = s0) /\
   (forall q, stat q s' = stat q s0 \/
      (stat q s' = None /\ repair = true /\ exists i, In i (reported msgs) /\ q = snd (name_from_id st i))) /\
-  (repair = true -> forall i en, In i (reported msgs) -> stat (snd (name_from_id st i)) s0 = Some en ->
-     is_dir (Some en) = false -> stat (snd (name_from_id st i)) s' = None) /\
+  (repair = true -> forall i, In i (reported msgs) -> stat (snd (name_from_id st i)) s' = None) /\
   (forall i m b, wf_id i -> stat (snd (name_from_id st i)) s0 = Some (EFile m b) ->
      ~ In i (reported msgs) -> exists d, storage_data zdecomp (st_unc st) b = Some d /\ H d = i).
 Proof. exact verify_exact_any. Qed.
 Print Assumptions C16_verify_exact.
+
+(* The ids handed to the workers are those of existing canonical chunk files -- whatever else lies in the
+   store (chunk names in wrong directories, upper-case names, chunk-named directories).  Hence the premise
+   of C16_verify_order_irrelevant below holds in every run: the workers' order never matters, and no worker
+   can remove a file the walk has not reached yet (the alias race of the pre-fix code is gone). *)
+Theorem C16_verify_feeds_canonical_files_only : forall (st : store) fuel bstr s0 ids e,
+  verify_ids fuel st bstr s0 = (ids, e) ->
+  Forall wf_id ids /\
+  forall i, In i ids -> exists en, stat (snd (name_from_id st i)) s0 = Some en /\ is_dir (Some en) = false.
+Proof. exact verify_fed_ids_canonical. Qed.
+Print Assumptions C16_verify_feeds_canonical_files_only.
 
 (* What Verify did before that fix (the same body run on the store as configured): on a store opened with
    SkipVerify it reports nothing and removes nothing, whatever the store holds -- the property "Verify
@@ -173,17 +185,19 @@ Example C16_example_stray :
   = Some (WeMissing 300%N).
 Proof. vm_compute. reflexivity. Qed.
 
-(* the alias race (finding): an upper-case alias listed before the invalid canonical chunk; if the worker
-   runs at once (eager schedule) the walk's lstat of the canonical file fails, in feeding order it does not *)
+(* the former alias race: an upper-case alias listed before the invalid canonical chunk.  The alias is
+   skipped now, so also the eager schedule (worker at once) completes, and both report exactly id 171 *)
 Definition up (s : bytes) : bytes := map (fun c => if (97 <=? c)%N then (c - 32)%N else c) s.
 Definition ex_alias_tree : node :=
   Dir meta0 [([115]%N, Dir meta0
     [(firstn 4 (hex_id 171%N), Dir meta0 [(up (hex_id 171%N) ++ ext_of false, File meta0 [40; 181; 171]%N);
                                          (hex_id 171%N ++ ext_of false, File meta0 [40; 181; 1]%N)])])].
-Example C16_example_alias_race :
-  snd (verify_eager ex_H ex_zdecomp default_fuel ex_st [115]%N true ex_alias_tree) = Some (WeErrno ENOENT) /\
-  snd (verify ex_H ex_zdecomp default_fuel ex_st [115]%N true ex_alias_tree) = None.
-Proof. vm_compute. split; reflexivity. Qed.
+Example C16_example_alias_no_race :
+  snd (verify_eager ex_H ex_zdecomp default_fuel ex_st [115]%N true ex_alias_tree) = None /\
+  snd (verify ex_H ex_zdecomp default_fuel ex_st [115]%N true ex_alias_tree) = None /\
+  reported (snd (fst (verify_eager ex_H ex_zdecomp default_fuel ex_st [115]%N true ex_alias_tree))) = [171%N] /\
+  reported (snd (fst (verify ex_H ex_zdecomp default_fuel ex_st [115]%N true ex_alias_tree))) = [171%N].
+Proof. vm_compute. repeat split; reflexivity. Qed.
 
 (* ---------- S3Store.Prune ---------- *)
 
